@@ -13,7 +13,7 @@ from .common import rng_for, crash_sig, chunks, fmt_outcome, norm_log
 RULE = ("sequential histories: one root context (list, string, bytes, map, int variables whose buffers the driver "
         "tracks through weak handles, optionally also holding its own Arc) and up to 50 executions of generated programs "
         "favouring x + [..], [..] + x, s + s, macros over x, literals embedding x, programs returning x, regex matches "
-        "with literal patterns, failing programs and deep programs; after every execution: context snapshot unchanged, "
+        "with literal patterns, failing programs and deep programs, and histories that select / test / index 36-47 distinct field, key and variable names before returning to the first ones; after every execution: context snapshot unchanged, "
         "buffer identity, reference counts conserved, every earlier result unchanged, program Debug unchanged, and the "
         "result equal to the same program run against the same context again, against a freshly built equal context, "
         "and alone in a fresh thread (solo baseline). Concurrent histories: a shared program set and root context "
@@ -210,6 +210,37 @@ def run_unit(unit, drv, res, seed, tier):
             # make sure failing executions are followed by good ones and vice versa
             cases.append({"id": h, "op": "history", "vars": [[n, to_json(v)] for n, v in ctx], "progs": progs, "seq": seq,
                           "opts": {"hold": rng.random() < 0.5}})
+        # histories that touch many distinct names (fields, variables, keys, has() tests) and then come back
+        # to the first ones: bounded per-thread / per-process tables keyed by name must not change any result
+        for h in range(25, 31):
+            ctx = make_ctx(rng)
+            K = rng.choice([36, 40, 44, 47])
+            mode = ['select', 'one-form', 'mixed'][h % 3]
+            one_form = None
+            names = [rng.choice(['f', 'k_', 'Field', 'z']) + '%d_%d' % (h, i) for i in range(K)]
+            ctx.append(("big", M([(S(nm), I(1000 + i)) for i, nm in enumerate(names)])))
+            for i, nm in enumerate(names[:K // 2]):
+                ctx.append((nm, I(2000 + i)))
+            progs = []
+            for i, nm in enumerate(names):
+                forms = ["big.%s", "big.%s + n", "has(big.%s)", "big['%s']", "{'%s': n}.%s", "[big].map(e, e.%s)", "big.%s == big['%s']",
+                         "has(big.%s) ? big.%s : n", "'%s' in big", "big.map(k, k == '%s').exists(b, b)"]
+                if i < K // 2:
+                    forms += ["%s + n", "[%s, n]", "big.%s - %s"]
+                if mode == 'select':
+                    f = "big.%s"
+                elif mode == 'one-form':
+                    one_form = one_form or rng.choice(forms[:10])
+                    f = one_form
+                else:
+                    f = rng.choice(forms)
+                progs.append(f.replace('%s', nm))
+            first = list(range(K))
+            if rng.random() < 0.5:
+                rng.shuffle(first)
+            seq = (first + first[:50 - K])[:50]
+            cases.append({"id": h, "op": "history", "vars": [[n, to_json(v)] for n, v in ctx], "progs": progs, "seq": seq,
+                          "opts": {"hold": False, "notrack": True}})
         out = drv.run(cases, 'history', watchdog=120)
         cross = {}
         for c, r in zip(cases, out):
